@@ -260,7 +260,7 @@ func CrashesAlone(raw json.RawMessage) (int, error) {
 						n++
 					}
 				}()
-				pristineFresh(&c.World.Models[call.Model], call.Inputs, nil)
+				pristineFresh(&c.World.Models[call.Model], call.Inputs, call.Flavour, nil)
 			}()
 		}
 	}
